@@ -62,7 +62,7 @@ CLAIMED["C09"] = dict(
          "_nothing_else); C09_root_md(+_fresh) — root metadata per entry name; C09_other_roots — other trees and header untouched. "
          "Targeted appends through the real dispatch and path matching, by a zipper lemma (updateAt_encode): C09_target_new_branch, "
          "C09_target_new_single, C09_target_below, C09_target_yes_append, C09_target_no_append, C09_target_over_branch / C09_target_over_single "
-         "(append-over of an inner node = appendOne at its parent), C09_target_new_below, C09_emdpath_root_new_single, C09_emdpath_self (emdpath naming the node itself = no emdpath), C09_emdpath_parent (naming its parent: the same), C09_emdpath_from_root (the Root saved under emdpath root/a/b = append of the runtime node a/b), C09_emdpath_downstream (emdpath naming a descendant of the saved node = append of that descendant), C09_emdpath_parent_new (node the file lacks, emdpath = its parent, tree=True/False = no emdpath), C09_foreign_branch, C09_foreign_single, C09_foreign_below, C09_foreign_root (+ _alone_refused) — exactly the selection is added exactly "
+         "(append-over of an inner node = appendOne at its parent), C09_target_new_below, C09_emdpath_root_new_single, C09_emdpath_self (emdpath naming the node itself = no emdpath), C09_emdpath_parent (naming its parent: the same), C09_emdpath_from_root (the Root saved under emdpath root/a/b = append of the runtime node a/b), C09_emdpath_downstream (emdpath naming a descendant of the saved node = append of that descendant), C09_emdpath_parent_new (node the file lacks, emdpath = its parent, tree=True/False = no emdpath), C09_emdpath_unrelated_refused (emdpath naming an unrelated node, e.g. a sibling with a similar name: refused, nothing written), C09_foreign_branch, C09_foreign_single, C09_foreign_below, C09_foreign_root (+ _alone_refused) — exactly the selection is added exactly "
          "there — with C09_target_frame (every path not through the target keeps its content). Sequences: C09_closed (every "
          "theorem applies again after any append) and C09_twice.",
     note="Every leaf of the dispatch for a root in the file without emdpath is proved (node in file x tree option x mode; node one "
